@@ -353,6 +353,7 @@ struct PkGen {
       r.q = -0.1 + g.unit() * 1.1; r.mode = g.chance(0.15) ? 1 + (int)g.below(3) : 0; if (r.mode) r.nominal = (long)(r.rate * 1.4 * std::min(r.ch, 2) * (0.6 + g.unit()));
       r.n = g.chance(0.15) ? (int64_t)g.range(0, 600) : g.range(2000, thorough ? 60000 : 30000); if (r.ch > 2) r.n = std::min<int64_t>(r.n, 60000 / r.ch); if (r.ch > 8) r.n = std::min<int64_t>(r.n, 2500);
       r.sig = (int)g.below(6); r.seed = g.below(40); r.ncomm = (int)g.below(3);
+      if (g.chance(0.08)) r.modes3 = 1 + (int)g.below(2);
       if (r.ch >= 2 && r.ch <= 8 && g.chance(0.25)) r.mute = 1 + (int)g.below((1u << r.ch) - 2);
       // restrict to a pool so that workers re-use encoded links
       r.n = (r.n / 997) * 997 + (r.n < 997 ? r.n % 7 : 0);
